@@ -273,12 +273,12 @@ impl Prop for Captured {
                 (Tier::Quick, _, _) => 4,
                 (Tier::Thorough, Which::C03, _) => 6,
                 (Tier::Thorough, _, Algorithm::Patience) => 5,
-                (Tier::Thorough, _, _) => 5,
+                (Tier::Thorough, _, _) => 6,
             };
             // thorough: additionally longer-but-lopsided plain inputs (n,m <= 6, n+m <= 10)
             // additionally longer-but-lopsided plain inputs: n,m <= 6 with n+m <= 9 (quick) / 10 (thorough)
-            let outer = max.max(6);
-            let lop = if tier == Tier::Thorough { 10 } else { 9 };
+            let outer = if tier == Tier::Thorough { 7 } else { max.max(6) };
+            let lop = if tier == Tier::Thorough { 11 } else { 9 };
             for n in 0..=outer {
                 for m in 0..=outer {
                     if (n > max || m > max) && n + m > lop {
@@ -375,7 +375,7 @@ impl Prop for Captured {
         if self.0 == Which::C03 {
             functions.push("similar::algorithms::diff (raw callback stream, monitored)");
         }
-        let max = match tier { Tier::Quick => 4, Tier::Thorough => if self.0 == Which::C03 { 6 } else { 5 } };
+        let max = match tier { Tier::Quick => 4, Tier::Thorough => 6 };
         let required: Vec<&'static str> = match self.0 {
             Which::C02 => vec!["paths_with_identical_inputs", "paths_where_the_deadline_fired", "paths_with_replace_op"],
             Which::C03 => vec!["paths_with_nontrivial_lcs"],
@@ -385,7 +385,7 @@ impl Prop for Captured {
         Meta {
             functions,
             bounds: format!(
-                "{} x range lengths n,m in 0..={} (plus lopsided whole-slice inputs up to 6 items a side with n+m<=9 quick / 10 thorough through capture_diff) x layouts {{whole slices, padded slices (1,1 / 2,1), offset lookups at (3,1)}} x entry points {}; symbolic items over an unbounded alphabet{}",
+                "{} x range lengths n,m in 0..={} (plus lopsided whole-slice inputs up to 6 (thorough 7) items a side with n+m<=9 quick / 11 thorough through capture_diff) x layouts {{whole slices, padded slices (1,1 / 2,1), offset lookups at (3,1)}} x entry points {}; symbolic items over an unbounded alphabet{}",
                 if self.0 == Which::C03 { "Myers and LCS" } else { "3 algorithms" },
                 max,
                 match self.0 {
